@@ -1,4 +1,5 @@
-CONSTANTS DS = 16  DE = 24  Mut = "AllowAlways"
+\* seeded fault "AllowAlways" of the migration model: TLC must report a violation of AmbiguityRule
+CONSTANTS DS = 16  DE = 24  Mut = "AllowAlways"  MaxFill = 1
 SPECIFICATION Spec
-INVARIANTS MigrationFaithful NonDestructive FailureClean AmbiguityRule MigrateTotal
+INVARIANTS AmbiguityRule
 CHECK_DEADLOCK FALSE
